@@ -134,6 +134,22 @@ def tighten(e):
     return Ent(conds, e.val, tuple(sums), e.zf)
 
 
+def rename_sums(e):
+    """a copy of the guarded term with fresh pending-summation variables (entry functions are memoised, so two factors of a product may be the very same
+    term: their summation variables must be renamed apart before the product is formed)"""
+    if not e.sums:
+        return e
+    conds, val, zf, sums = list(e.conds), e.val, list(e.zf), []
+    for (var, lo, hi) in e.sums:
+        nv = fresh_idx("p")
+        conds = [_subst(c, var, nv) for c in conds]
+        val = _subst(val, var, nv)
+        zf = [(_subst(a_, var, nv), _subst(b_, var, nv)) for a_, b_ in zf]
+        sums = [(v_, SInt(_subst(iterm(l_), var, nv)), SInt(_subst(iterm(h_), var, nv))) for (v_, l_, h_) in sums]
+        sums.append((nv, lo, hi))
+    return Ent(conds, val, tuple(sums), tuple(zf))
+
+
 def ents_expr(ents):
     """the entry as one z3 Real term"""
     t = z3.RealVal(0)
@@ -460,7 +476,14 @@ class IArr(IdxND):
             if SUM_ATOMS[0] and COLLAPSE[0]:
                 # Krylov mode: operands are general expressions, not one-hot structures: one term per entry
                 return IArr(shape, lambda *idx: [Ent([], _mulv(ents_expr(fa(*idx)), ents_expr(fb(*idx))))], dt)
-            return IArr(shape, lambda *idx: [resolve_sums(Ent(a.conds + b.conds, _mulv(a.val, b.val), a.sums + b.sums, a.zf + b.zf)) for a in fa(*idx) for b in fb(*idx)], dt)
+            def prod(*idx):
+                out = []
+                for a in fa(*idx):
+                    for b in fb(*idx):
+                        b2 = rename_sums(b) if (a.sums and b.sums) else b
+                        out.append(resolve_sums(Ent(a.conds + b2.conds, _mulv(a.val, b2.val), a.sums + b2.sums, a.zf + b2.zf)))
+                return out
+            return IArr(shape, prod, dt)
         s = SScal.lift(o)
         if not s.is_real():
             raise Unsupported("complex scalar in the index domain")
@@ -598,12 +621,12 @@ class IArr(IdxND):
             if o.ndim == 2:
                 def fn(i, j):
                     v = fresh_idx("m")
-                    return eliminate(v, 0, n, [Ent(a.conds + b.conds, _mulv(a.val, b.val), a.sums + b.sums) for a in self.fn(i, v) for b in o.fn(v, j)])
+                    return eliminate(v, 0, n, [Ent(a.conds + b.conds, _mulv(a.val, b.val), a.sums + b.sums, a.zf + b.zf) for a in self.fn(i, v) for b in (rename_sums(b_) for b_ in o.fn(v, j))])
                 return IArr((self.shape[0], o.shape[1]), fn, np.promote_types(self.dtype, o.dtype))
 
             def fn1(i):
                 v = fresh_idx("m")
-                return eliminate(v, 0, n, [Ent(a.conds + b.conds, _mulv(a.val, b.val), a.sums + b.sums) for a in self.fn(i, v) for b in o.fn(v)])
+                return eliminate(v, 0, n, [Ent(a.conds + b.conds, _mulv(a.val, b.val), a.sums + b.sums, a.zf + b.zf) for a in self.fn(i, v) for b in (rename_sums(b_) for b_ in o.fn(v))])
             return IArr((self.shape[0],), fn1, np.promote_types(self.dtype, o.dtype))
         raise Unsupported("matmul operand")
 
